@@ -535,9 +535,15 @@ class Gen:
         elif r < 0.52:
             self.align()
         elif r < 0.56:
-            data = bytes(rng.randint(0, 255) for _ in range(rng.randint(0, 5)))
-            fn = f"b{len(self.files)}.bin"
-            self.files["/" + fn] = data
+            bins = sorted(f for f in self.files if f.endswith(".bin"))
+            if bins and rng.random() < 0.45:
+                # the same file again
+                fn = rng.choice(bins)[1:]
+                data = self.files["/" + fn]
+            else:
+                data = bytes(rng.randint(0, 255) for _ in range(rng.randint(0, 5)))
+                fn = f"b{len(self.files)}.bin"
+                self.files["/" + fn] = data
             self.add(("incbin", data), f'@incbin "{fn}"')
             self.here_est += len(data)
         elif r < 0.72:
